@@ -87,11 +87,20 @@ class Obs(resource.ObservableResource):
         serverobservation.accept(cb)
         serverobservation._verif_serial = s
 
+    sample_early = False
+
     async def render_get(self, request):
         self.renders += 1
+        v = self.version       # (sample_early: the state is read before the render yields, so a change during the render is not in it)
         if self.render_delay:
             await asyncio.sleep(self.render_delay)     # a render that yields: state changes can land in the middle of it
-        return Message(payload=b"v%dr%d" % (self.version, self.renders))
+        m = Message(payload=b"v%dr%d" % (v if self.sample_early else self.version, self.renders))
+        if self.version in self.non_versions:
+            import aiocoap
+            m.transport_tuning = aiocoap.Unreliable      # this state is announced non-confirmably, whatever the registration's request was
+        return m
+
+    non_versions = ()
 
 
 class Observer(Peer):
@@ -166,8 +175,27 @@ class ObsScenario(NetScenario):
         st.used = set()
         st.shut = False
         n = self.name
-        if n in ("S-OBS-slowrender", "S-OBS-slowrender-two"):
+        if n in ("S-OBS-slowrender", "S-OBS-slowrender-two", "S-OBS-earlysample"):
             st.res.render_delay = 0.1
+        if n == "S-OBS-mixed":
+            # three changes and the deregistration before anything else gets through: a confirmable notification on the wire, one held
+            # back behind it, a non-confirmable one (sent at once), then the end - what was held back is not sent afterwards
+            st.res.non_versions = (3,)
+            st.script.append(("register O1 CON", lambda st: self.register(st, st.o1, True)))
+
+            def burst(st):
+                for i in range(3):
+                    self.change(st)
+                    st.world.loop.settle()
+                self.apply_fault(st, "dereg:O1")
+            st.script.append(("three changes and a deregistration at once", burst))
+            return
+        if n == "S-OBS-earlysample":
+            # the only change there is lands while the first response is being rendered, after the render has read the state
+            st.res.sample_early = True
+            st.script.append(("register O1 CON", lambda st: self.register(st, st.o1, True)))
+            st.script.append(("change", lambda st: self.change(st)))
+            return
         if n == "S-OBS-twotokens-deaf":
             # an observer with two registrations that never acknowledges a notification: the first notification is given up after
             # MAX_TRANSMIT_WAIT - and a registration that is still alive afterwards still gets the latest state
@@ -460,7 +488,7 @@ class ObsScenario(NetScenario):
 
 
 def run(tier, seed, jobs):
-    names = ["S-OBS-con", "S-OBS-non", "S-OBS-two", "S-OBS-slowrender", "S-OBS-twotokens", "S-OBS-sametoken", "S-OBS-midcollide", "S-OBS-twotokens-deaf", "S-OBS-slowrender-two"]
+    names = ["S-OBS-con", "S-OBS-non", "S-OBS-two", "S-OBS-slowrender", "S-OBS-twotokens", "S-OBS-sametoken", "S-OBS-midcollide", "S-OBS-twotokens-deaf", "S-OBS-slowrender-two", "S-OBS-earlysample", "S-OBS-mixed"]
     K = 1 if tier == "quick" else 2
     res = explore_schedules([ObsScenario(n, K) for n in names], K, jobs)
     if tier == "quick":
